@@ -3,7 +3,10 @@
     ([SetFlow], [AddMeasuredData]), the step constructors of
     steps/commonsteps ([If], [MergeSteps], [SetFlow], [SetFlowFromFunc],
     [SetActor], [Panic]),
-    steps/tpmsteps ([InitTPM], [Measure]) and the actions behind them.
+    steps/tpmsteps ([InitTPM], [LogInit], [Measure]) and the actions behind
+    them, of the condition constructors [commonconds.Not] ([CNot], one wrapper
+    per negation) and [tpmconds.TPMIsInited] ([CTPMInited]), and of nil steps
+    ([SNil]: a hole in [Flow.Steps] — [Actions] on it panics).
     Executable definitions only; proofs live in Proofs/Interp.v.
 
     Deep embedding: a family of flows is an association list from flow names
@@ -67,7 +70,11 @@ Inductive step :=
 | SInitTPM (withLog : bool)                 (* tpmsteps.InitTPM *)
 | SCustom (id : Z) (panics : bool) (acts : list action)
                                             (* harness step: Actions() returns acts or panics *)
-| SSetFlowFunc (id : Z) (fn : ffun).        (* commonsteps.SetFlowFromFunc(fn) *)
+| SSetFlowFunc (id : Z) (fn : ffun)         (* commonsteps.SetFlowFromFunc(fn) *)
+| SLogInit                                  (* tpmsteps.LogInit used as a step of its own *)
+| SNil.                                     (* a nil [types.Step]: a hole in [Flow.Steps] (or in a
+                                               merged step), or a nil pointer of a step type whose
+                                               [Actions] dereferences it; calling [Actions] panics *)
 
 (** a top-level step of a flow with the identity the log is compared by *)
 Definition tstep : Type := Z * step.
@@ -149,6 +156,12 @@ Fixpoint actions_of (s : step) (c : core) : outcome (list action) :=
            else []))
   | SCustom _ p acts => if p then Panic else Ok acts
   | SSetFlowFunc id fn => Ok [ASetFlowFunc id fn]        (* [fn] is NOT called here *)
+  | SLogInit =>
+      Ok (match c_tpm c with
+          | None => [APanic]                             (* "unable to access TPM" *)
+          | Some _ => [ATPMLogAdd; ATPMLogAdd]           (* one per supported algorithm *)
+          end)
+  | SNil => Panic                                        (* method call on a nil step *)
   end.
 
 Definition res_outcome (r : ares) : outcome unit :=
